@@ -41,8 +41,14 @@ using factory_type = osmium::index::MapFactory<id_type, osmium::Location>;
 
 std::string g_tmpdir;
 
-const char* all_types[] = {"dense_mem_array", "sparse_mem_array", "sparse_mem_map", "flex_mem", "dense_mmap_array", "sparse_mmap_array", "dense_file_array", "sparse_file_array"};
+const char* all_types[] = {"dense_mem_array", "sparse_mem_array", "sparse_mem_map", "flex_mem", "flex_mem_dense", "dense_mmap_array", "sparse_mmap_array", "dense_file_array", "sparse_file_array"};
 bool is_dense(const std::string& t) { return t.compare(0, 5, "dense") == 0; }
+
+// "flex_mem_dense" is FlexMem constructed in dense mode (constructor argument; the factory only creates the sparse start)
+std::unique_ptr<map_type> make_map(const std::string& t) {
+    if (t == "flex_mem_dense") { return std::unique_ptr<map_type>{new osmium::index::map::FlexMem<id_type, osmium::Location>{true}}; }
+    return factory_type::instance().create_map(t);
+}
 
 osmium::Location loc_for(id_type id, uint32_t salt) {
     const int32_t x = static_cast<int32_t>((id * 2654435761ULL + salt) % 3600000000ULL) - 1800000000;
@@ -100,12 +106,13 @@ struct History {
 History gen_history() {
     History h;
     h.salt = choose(S_WORK, 1000);
-    const uint32_t profile = choose(S_WORK, 7);
+    const uint32_t profile = choose(S_WORK, 8);
     std::set<id_type> seen;
     auto add = [&](id_type id) {
         if (seen.insert(id).second) { h.ids.push_back(id); }
     };
     const uint32_t n = 1 + choose(S_WORK, 600);
+    bool fixed_order = false;
     switch (profile) {
         case 0: // small dense range
             h.desc = "dense 0..n";
@@ -134,6 +141,16 @@ History gen_history() {
                 for (uint32_t i = 0; i < 50; ++i) { add(base + choose(S_WORK, 200)); }
             }
             break;
+        case 7: { // FlexMem: a dense prefix (so that the sparse->dense switch happens with the lowered threshold), then ids
+                  // scattered over 64Ki-blocks in an order that visits high blocks before lower untouched ones
+            h.desc = "dense prefix then scattered blocks";
+            const uint32_t prefix = 220 + choose(S_WORK, 300);
+            for (uint32_t i = 0; i < prefix; ++i) { add(i); }
+            const uint32_t blocks = 2 + choose(S_WORK, 38);
+            for (uint32_t i = 0; i < n; ++i) { add((static_cast<id_type>(choose(S_WORK, blocks)) << 16) + (choose(S_WORK, 3) ? choose(S_WORK, 65536) : (choose(S_WORK, 2) ? choose(S_WORK, 4) : 65535 - choose(S_WORK, 4)))); }
+            fixed_order = true;
+            break;
+        }
         default: // id 0 and the dense maximum
             h.desc = "boundaries";
             add(0);
@@ -145,7 +162,7 @@ History gen_history() {
             break;
     }
     // order
-    const uint32_t order = choose(S_WORK, 4);
+    const uint32_t order = fixed_order ? 0 : choose(S_WORK, 4);
     if (order == 1) { std::sort(h.ids.begin(), h.ids.end()); }
     else if (order == 2) { std::sort(h.ids.rbegin(), h.ids.rend()); }
     else if (order == 3) {
@@ -249,9 +266,13 @@ void run_maps() {
     for (const auto& t : types) {
         std::string diff;
         try {
-            std::unique_ptr<map_type> m = factory.create_map(t);
+            std::unique_ptr<map_type> m = make_map(t);
             for (id_type id : h.ids) { m->set(id, loc_for(id, h.salt)); }
             m->sort();
+            if (const auto* fm = dynamic_cast<const osmium::index::map::FlexMem<id_type, osmium::Location>*>(m.get())) {
+                if (fm->is_dense() && t == "flex_mem") { sim::probe("FlexMem switched from sparse to dense (lowered threshold)"); }
+                if (fm->is_dense() && h.max_id >= 65536) { sim::probe("FlexMem in dense mode holds several 64Ki blocks"); }
+            }
             diff = compare(*m, model, probes);
             if (!diff.empty()) {
                 sim::report("oracle", "C12.map/" + t + "/lookup-differs-from-model", t + " after " + std::to_string(h.ids.size()) + " insertions (" + h.desc + "): " + diff);
@@ -260,8 +281,8 @@ void run_maps() {
             if (h.max_id >= (1ULL << 20) && (t == "dense_mmap_array" || t == "dense_file_array")) { sim::probe("dense mmap/file vector grew beyond its first 1 Mi elements"); }
             // ---- dump and reload (short writes and EINTR while dumping)
             const bool as_array = is_dense(t) || (t.compare(0, 6, "sparse") == 0 && t != "sparse_mem_map" && dense_ok && choose(S_CONF, 2));
-            const bool can_list = !is_dense(t) && t != "flex_mem";
-            if (t == "flex_mem") { continue; } // FlexMem has no dump functions
+            const bool can_list = !is_dense(t) && t.compare(0, 8, "flex_mem") != 0;
+            if (t.compare(0, 8, "flex_mem") == 0) { continue; } // FlexMem has no dump functions
             if (!as_array && !can_list) { continue; }
             const std::string dump_path = "/sim/dump";
             simfs::remove_file(dump_path);
